@@ -92,16 +92,21 @@ def breakdown_cases(r, tabs, n):
 
 
 def task_type_script(sc, tabs):
-    """drv_emu script (text level) for the hierarchy of a task-type scenario: one loom,
-    one CPU per thread (phyid = index), task types per process in creation order.
+    """drv_emu script (text level) for the hierarchy of a task-type scenario: one to three
+    looms, one CPU per thread (phyid = index), task types per process in creation order.
     drv_emu has no task layer (`noHook`), so only the .pcf / .row text is taken."""
-    allth = [t for pr in sc.procs for t in pr["threads"]]
-    sysd = emu_lib.Sys([("node0", [(pr["pid"], list(pr["threads"])) for pr in sc.procs], list(range(len(allth))))],
+    # processes may be spread over several looms (c07.scenario_streams): each loom has one CPU per thread
+    byloom = {}
+    for pr in sc.procs:
+        byloom.setdefault(pr.get("loom", "node0"), []).append(pr)
+    sysd = emu_lib.Sys([(loom, [(pr["pid"], list(pr["threads"])) for pr in prs],
+                         list(range(sum(len(pr["threads"]) for pr in prs)))) for loom, prs in byloom.items()],
                        {"ovni": tabs["ovni"]["version"]})
     appids = []
     for (li, pid, tid) in sysd.threads:
         appids.append([pr["appid"] for pr in sc.procs if pr["pid"] == pid][0])
-    procs = sorted(sc.procs, key=lambda pr: pr["pid"])
+    # global process order: looms by name, processes by pid
+    procs = sorted(sc.procs, key=lambda pr: (pr.get("loom", "node0"), pr["pid"]))
     tts = []
     for (pid, e) in sc.events:
         if e[0] == "type":
